@@ -28,6 +28,10 @@ type canonKey struct {
 }
 
 var canonFields = map[canonKey]string{}
+
+// canonHolders: fields of a discipline struct that are private nested structs grouping role fields
+// (dsc.timing, dsc.changes): access paths read through them (dsc.timing.passAt is dsc.passAt).
+var canonHolders = map[canonKey]bool{}
 var canonMu sync.Mutex
 
 // canonNote records the renames that were resolved (reported in the evidence).
@@ -196,15 +200,39 @@ func (p *Prog) resolveCanonFields() {
 		for _, v := range fieldVocabulary[kind] {
 			vocab[v] = true
 		}
+		// the structs whose fields play the roles: the discipline struct and the private structs it
+		// nests to group its fields (dsc.timing.passAt, dsc.changes.adds)
+		type holder struct {
+			named   *types.Named
+			st      *types.Struct
+			unknown []int
+		}
+		holders := []*holder{{named: named, st: st}}
 		present := map[string]bool{}
-		var unknown []int
 		for i := 0; i < st.NumFields(); i++ {
-			n := st.Field(i).Name()
-			if vocab[n] {
-				present[n] = true
-			} else {
-				unknown = append(unknown, i)
+			f := st.Field(i)
+			if vocab[f.Name()] {
+				present[f.Name()] = true
+				continue
 			}
+			if nn, isNamed := f.Type().(*types.Named); isNamed && !f.Exported() && nn.Obj().Pkg() == pk.Pkg && !nn.Obj().Exported() {
+				if nst, isStruct := nn.Underlying().(*types.Struct); isStruct {
+					h := &holder{named: nn, st: nst}
+					canonMu.Lock()
+					canonHolders[canonKey{named.Origin(), i}] = true
+					canonMu.Unlock()
+					for j := 0; j < nst.NumFields(); j++ {
+						if vocab[nst.Field(j).Name()] {
+							present[nst.Field(j).Name()] = true
+						} else {
+							h.unknown = append(h.unknown, j)
+						}
+					}
+					holders = append(holders, h)
+					continue
+				}
+			}
+			holders[0].unknown = append(holders[0].unknown, i)
 		}
 		var missing []string
 		for _, v := range fieldVocabulary[kind] {
@@ -212,36 +240,41 @@ func (p *Prog) resolveCanonFields() {
 				missing = append(missing, v)
 			}
 		}
-		if len(missing) == 0 || len(unknown) == 0 {
+		if len(missing) == 0 {
 			continue
-		}
-		// candidates by type class
-		byClass := map[string][]int{}
-		for _, i := range unknown {
-			c := fieldTypeClass(st.Field(i).Type())
-			byClass[c] = append(byClass[c], i)
 		}
 		rolesByClass := map[string][]string{}
 		for _, r := range missing {
 			c := roleTypeClass(r)
 			rolesByClass[c] = append(rolesByClass[c], r)
 		}
-		for class, roles := range rolesByClass {
-			cands := byClass[class]
-			if len(cands) == 0 {
+		for _, h := range holders {
+			if len(h.unknown) == 0 {
 				continue
 			}
-			assign := map[string]int{}
-			if len(roles) == 1 && len(cands) == 1 {
-				assign[roles[0]] = cands[0]
-			} else {
-				assign = p.tieBreak(pk, named, st, class, roles, cands)
+			// candidates by type class
+			byClass := map[string][]int{}
+			for _, i := range h.unknown {
+				c := fieldTypeClass(h.st.Field(i).Type())
+				byClass[c] = append(byClass[c], i)
 			}
-			for role, idx := range assign {
-				canonMu.Lock()
-				canonFields[canonKey{named.Origin(), idx}] = role
-				canonNotes = append(canonNotes, kind+": field "+st.Field(idx).Name()+" plays the role the rules call "+role)
-				canonMu.Unlock()
+			for class, roles := range rolesByClass {
+				cands := byClass[class]
+				if len(cands) == 0 {
+					continue
+				}
+				assign := map[string]int{}
+				if len(roles) == 1 && len(cands) == 1 {
+					assign[roles[0]] = cands[0]
+				} else {
+					assign = p.tieBreak(pk, named, h.named, h.st, class, roles, cands)
+				}
+				for role, idx := range assign {
+					canonMu.Lock()
+					canonFields[canonKey{h.named.Origin(), idx}] = role
+					canonNotes = append(canonNotes, kind+": field "+h.st.Field(idx).Name()+" plays the role the rules call "+role)
+					canonMu.Unlock()
+				}
 			}
 		}
 	}
@@ -315,14 +348,14 @@ func fieldIdxOf(v ssa.Value, named *types.Named) (int, bool) {
 
 // tieBreak decides same-typed candidates by what the code does with them. It returns an
 // assignment only when it is a bijection between roles and candidates.
-func (p *Prog) tieBreak(pk *ssa.Package, named *types.Named, st *types.Struct, class string, roles []string, cands []int) map[string]int {
+func (p *Prog) tieBreak(pk *ssa.Package, owner *types.Named, named *types.Named, st *types.Struct, class string, roles []string, cands []int) map[string]int {
 	sig := map[int]string{}
 	fns := pkgFuncs(pk)
 	switch class {
 	case "*breaker.Breaker":
 		// the breaker that Stop() breaks / the breaker that GracefulStop() breaks
 		for _, fn := range fns {
-			if fn.Signature.Recv() == nil || namedOrigin(fn.Signature.Recv().Type()) != named.Origin() {
+			if fn.Signature.Recv() == nil || namedOrigin(fn.Signature.Recv().Type()) != owner.Origin() {
 				continue
 			}
 			role := map[string]string{"Stop": "breaker", "GracefulStop": "graceful"}[fn.Name()]
@@ -342,7 +375,7 @@ func (p *Prog) tieBreak(pk *ssa.Package, named *types.Named, st *types.Struct, c
 	case "chan uint":
 		// the channel RemoveInput() writes; the other one carries the feedback
 		for _, fn := range fns {
-			if fn.Signature.Recv() == nil || namedOrigin(fn.Signature.Recv().Type()) != named.Origin() || fn.Name() != "RemoveInput" {
+			if fn.Signature.Recv() == nil || namedOrigin(fn.Signature.Recv().Type()) != owner.Origin() || fn.Name() != "RemoveInput" {
 				continue
 			}
 			for _, b := range fn.Blocks {
